@@ -63,38 +63,6 @@ theorem findSub_append_left (pat : Str) (hp : pat ≠ []) : ∀ (a b : Str) (d :
 
 /-! ### the field shapes clang emits -/
 
-inductive Field where
-  | punct (c : Char)          -- `*`, `(`, `)` on their own
-  | angle (a : Str)           -- `<a>`: source ranges, cast kinds, `<invalid sloc>`
-  | dquote (a : Str)          -- `"a"`
-  | squote (a : Str)          -- `'a'`: a type or an operator
-  | squote2 (a b : Str)       -- `'a':'b'`: a type with its desugared form
-  | word (w : Str)            -- addresses, names, keywords, numbers, `col:7`, `line:3:5`
-deriving Repr, DecidableEq
-
-def Field.render : Field → Str
-  | .punct c => [c]
-  | .angle a => '<' :: a ++ ['>']
-  | .dquote a => '"' :: a ++ ['"']
-  | .squote a => '\'' :: a ++ ['\'']
-  | .squote2 a b => '\'' :: a ++ tick3 ++ b ++ ['\'']
-  | .word w => w
-
-def noCh (c : Char) (s : Str) : Bool := s.all (· != c)
-
-def wordStartOK (c : Char) : Bool :=
-  c != '*' && c != '(' && c != ')' && c != Char.ofNat 0 && c != '<' && c != '"' && c != '\'' && c != ' '
-
-/-- the well-formedness of a field: the group delimiters do not occur inside the group; a bare word has no blank, no `<`, no `::`
-    and does not start with a delimiter -/
-def Field.ok : Field → Bool
-  | .punct c => c == '*' || c == '(' || c == ')'
-  | .angle a => noCh '>' a
-  | .dquote a => noCh '"' a
-  | .squote a => noCh '\'' a
-  | .squote2 a b => noCh '\'' a && noCh '\'' b
-  | .word w => (match w with | [] => false | c :: _ => wordStartOK c) && noCh ' ' w && noCh '<' w && (findSub dcolon w).isNone
-
 theorem noCh_iff {c : Char} {s : Str} : noCh c s = true ↔ ∀ x ∈ s, (x == c) = false := by
   simp [noCh, List.all_eq_true, bne_iff_ne]
 
@@ -354,5 +322,615 @@ theorem splitString_join (fs : List Field) (h : fs.all Field.ok = true) :
     splitString (join (fs.map Field.render)) = some (fs.map Field.render) := by
   unfold splitString
   rw [loop_fields fs h _ (Nat.lt_succ_self _)]
+
+/-! ### decimal numbers as clang prints them -/
+
+def digitChar (d : Nat) : Char := Char.ofNat (48 + d)
+
+/-- unsigned decimal without leading zeros (`llvm::raw_ostream << unsigned`); the first argument is fuel -/
+def showNatF : Nat → Nat → Str
+  | 0, _ => []
+  | f + 1, n => if n < 10 then [digitChar n] else showNatF f (n / 10) ++ [digitChar (n % 10)]
+
+def showNat (n : Nat) : Str := showNatF (n + 1) n
+
+theorem showNatF_fuel : ∀ (f f' n : Nat), n < f → n < f' → showNatF f n = showNatF f' n
+  | 0, _, _, h, _ => by omega
+  | _, 0, _, _, h => by omega
+  | f + 1, f' + 1, n, h, h' => by
+    simp only [showNatF]
+    split
+    · rfl
+    · rw [showNatF_fuel f f' (n / 10) (by omega) (by omega)]
+
+theorem showNat_eq (n : Nat) : showNat n = if n < 10 then [digitChar n] else showNat (n / 10) ++ [digitChar (n % 10)] := by
+  unfold showNat
+  rw [show showNatF (n + 1) n = (if n < 10 then [digitChar n] else showNatF n (n / 10) ++ [digitChar (n % 10)]) from rfl]
+  split
+  · rfl
+  · rw [showNatF_fuel n (n / 10 + 1) (n / 10) (by omega) (by omega)]
+
+theorem digitChar_isDigit {d : Nat} (h : d < 10) : isDigit (digitChar d) = true := by
+  have : d = 0 ∨ d = 1 ∨ d = 2 ∨ d = 3 ∨ d = 4 ∨ d = 5 ∨ d = 6 ∨ d = 7 ∨ d = 8 ∨ d = 9 := by omega
+  rcases this with h | h | h | h | h | h | h | h | h | h <;> subst h <;> decide
+
+theorem digitChar_val {d : Nat} (h : d < 10) : (digitChar d).toNat - 48 = d := by
+  have : d = 0 ∨ d = 1 ∨ d = 2 ∨ d = 3 ∨ d = 4 ∨ d = 5 ∨ d = 6 ∨ d = 7 ∨ d = 8 ∨ d = 9 := by omega
+  rcases this with h | h | h | h | h | h | h | h | h | h <;> subst h <;> decide
+
+theorem digitsVal_append (a : Str) (c : Char) (acc : Nat) : digitsVal (a ++ [c]) acc = digitsVal a acc * 10 + (c.toNat - 48) := by
+  induction a generalizing acc with
+  | nil => simp [digitsVal]
+  | cons x t ih => simp [digitsVal, ih]
+
+theorem showNat_digits (n : Nat) : (showNat n).all isDigit = true := by
+  induction n using Nat.strongRecOn with
+  | _ n ih =>
+    rw [showNat_eq]
+    split
+    · simp [digitChar_isDigit (by assumption)]
+    · simp [ih (n / 10) (by omega), digitChar_isDigit (Nat.mod_lt n (by decide))]
+
+theorem showNat_val (n : Nat) : digitsVal (showNat n) 0 = n := by
+  induction n using Nat.strongRecOn with
+  | _ n ih =>
+    rw [showNat_eq]
+    split
+    · simp [digitsVal, digitChar_val (by assumption)]
+    · rw [digitsVal_append, ih (n / 10) (by omega), digitChar_val (Nat.mod_lt n (by decide))]
+      omega
+
+theorem showNat_ne_nil (n : Nat) : showNat n ≠ [] := by
+  rw [showNat_eq]; split <;> simp
+
+theorem showNat_head (n : Nat) : ∃ c t, showNat n = c :: t ∧ (c = '0' → t = []) := by
+  induction n using Nat.strongRecOn with
+  | _ n ih =>
+    rw [showNat_eq]
+    split
+    · exact ⟨_, [], rfl, fun _ => rfl⟩
+    · rename_i h
+      obtain ⟨c, t, hc, h0⟩ := ih (n / 10) (by omega)
+      refine ⟨c, t ++ [digitChar (n % 10)], by simp [hc], ?_⟩
+      intro hz
+      exfalso
+      -- n / 10 ≥ 1, so its first digit is not 0 unless it is the single digit 0
+      have ht := h0 hz
+      subst hz; subst ht
+      have hv := showNat_val (n / 10)
+      rw [hc] at hv
+      simp [digitsVal] at hv
+      omega
+
+theorem strToInt_showNat (n : Nat) (h : n < 2147483648) : strToInt (showNat n) = some (n : Int) := by
+  obtain ⟨c, t, hc, h0⟩ := showNat_head n
+  have hd := showNat_digits n
+  have hv := showNat_val n
+  rw [hc] at hd hv
+  have hcd : isDigit c = true := by simp at hd; exact hd.1
+  have hm : (c == '-') = false := by
+    cases hcm : c == '-' with
+    | false => rfl
+    | true => rw [beq_iff_eq.1 hcm] at hcd; exact absurd hcd (by decide)
+  have hp : (c == '+') = false := by
+    cases hcm : c == '+' with
+    | false => rfl
+    | true => rw [beq_iff_eq.1 hcm] at hcd; exact absurd hcd (by decide)
+  rw [hc]
+  simp only [strToInt, hm, hp, Bool.false_eq_true, if_false]
+  have hz : (c == '0' && !t.isEmpty) = false := by
+    cases hcz : c == '0' with
+    | false => rfl
+    | true => simp [h0 (beq_iff_eq.1 hcz)]
+  have hall : ((c :: t).isEmpty || !(c :: t).all isDigit) = false := by simp [hd]
+  simp only [hall, hz, Bool.false_eq_true, if_false, hv]
+  have : ¬ ((n : Int) < -2147483648 ∨ (n : Int) > 2147483647) := by omega
+  simp [this]
+
+
+/-! ### how clang prints a location (TextNodeDumper::dumpLocation / dumpSourceRange) -/
+
+section
+attribute [local irreducible] showNat
+
+/-- the three spellings of a valid location -/
+inductive LForm where
+  | col (c : Nat)                    -- same file, same line as the last printed location
+  | line (l c : Nat)                 -- same file, other line
+  | file (f : Str) (l c : Nat)       -- other file
+deriving Repr, DecidableEq
+
+def LForm.render : LForm → Str
+  | .col c => ['c', 'o', 'l', ':'] ++ showNat c
+  | .line l c => ['l', 'i', 'n', 'e', ':'] ++ showNat l ++ [':'] ++ showNat c
+  | .file f l c => f ++ [':'] ++ showNat l ++ [':'] ++ showNat c
+
+/-- `<begin>` or `<begin, end>` -/
+def rangeStr (b : LForm) (e : Option LForm) : Str :=
+  '<' :: (b.render ++ (match e with | none => [] | some e => [',', ' '] ++ e.render) ++ ['>'])
+
+theorem showNat_no (c : Char) (hc : isDigit c = false) (n : Nat) : ∀ x ∈ showNat n, (x == c) = false := by
+  intro x hx
+  have := List.all_eq_true.1 (showNat_digits n) x hx
+  cases hxc : x == c with
+  | false => rfl
+  | true => rw [beq_iff_eq.1 hxc] at this; rw [this] at hc; cases hc
+
+/-- `ext.substr(k, ext.find_first_of(stops, k) - k)` when a run of non-stop characters is followed by a stop -/
+theorem upTo_hit (stops : List Char) (pre mid : Str) (c : Char) (post : Str)
+    (hm : ∀ x ∈ mid, stops.contains x = false) (hc : stops.contains c = true) :
+    upTo stops (pre ++ mid ++ c :: post) pre.length = mid := by
+  unfold upTo findFrom
+  have hd : (pre ++ mid ++ c :: post).drop pre.length = mid ++ c :: post := by simp
+  rw [hd, findP_hit mid c post hm hc]
+  simp
+
+/-- a pattern whose first character does not occur is not found -/
+theorem findSub_none_of_head (h : Char) (pt : Str) : ∀ (s : Str), (∀ x ∈ s, (x == h) = false) → findSub (h :: pt) s = none
+  | [], _ => by simp [findSub]
+  | c :: t, hs => by
+    have hc : (c == h) = false := hs c (by simp)
+    have : (h :: pt).isPrefixOf (c :: t) = false := by
+      simp only [List.isPrefixOf]
+      have : (h == c) = false := by rw [Bool.beq_comm]; exact hc
+      simp [this]
+    simp [findSub, this, findSub_none_of_head h pt t (fun x hx => hs x (by simp [hx]))]
+
+/-- skipping a prefix in which the first character of the pattern does not occur -/
+theorem findSub_skip (h : Char) (pt : Str) : ∀ (a b : Str), (∀ x ∈ a, (x == h) = false) →
+    findSub (h :: pt) (a ++ b) = (findSub (h :: pt) b).map (· + a.length)
+  | [], b, _ => by simp
+  | c :: t, b, hs => by
+    have hc : (c == h) = false := hs c (by simp)
+    have : (h :: pt).isPrefixOf (c :: (t ++ b)) = false := by
+      simp only [List.isPrefixOf]
+      have : (h == c) = false := by rw [Bool.beq_comm]; exact hc
+      simp [this]
+    simp only [List.cons_append, findSub, this, Bool.false_eq_true, if_false,
+      findSub_skip h pt t b (fun x hx => hs x (by simp [hx])), Option.map_map, List.length_cons]
+    cases findSub (h :: pt) b <;> simp [Nat.add_assoc]
+
+
+/-! ### `setLoc` on the three spellings -/
+
+/-- the text after the begin location inside the brackets: `>` or `, end>` -/
+def tailStr (e : Option LForm) : Str := (match e with | none => [] | some e => [',', ' '] ++ e.render) ++ ['>']
+
+theorem rangeStr_eq (b : LForm) (e : Option LForm) : rangeStr b e = '<' :: (b.render ++ tailStr e) := by
+  simp [rangeStr, tailStr]
+
+theorem tailStr_head (e : Option LForm) : ∃ c post, tailStr e = c :: post ∧ (c = ',' ∨ c = '>') := by
+  cases e with
+  | none => exact ⟨'>', [], rfl, .inr rfl⟩
+  | some e => exact ⟨',', _, rfl, .inl rfl⟩
+
+theorem setLoc_col (files : List Str) (c : Nat) (hc : c < 2147483648) (e : Option LForm) (inh : Pos) :
+    setLoc files (rangeStr (.col c) e) inh = .ok (files, { inh with col := (c : Int) }) := by
+  obtain ⟨s, post, ht, hs⟩ := tailStr_head e
+  have hx : rangeStr (.col c) e = colPfx ++ showNat c ++ s :: post := by
+    rw [rangeStr_eq, ht]; simp [LForm.render, colPfx]
+  have hpre : colPfx.isPrefixOf (rangeStr (.col c) e) = true := by
+    rw [hx, List.isPrefixOf_iff_prefix]; exact ⟨showNat c ++ s :: post, by simp⟩
+  have hup : upTo [',', '>'] (rangeStr (.col c) e) 5 = showNat c := by
+    rw [hx]
+    have : (5 : Nat) = colPfx.length := by decide
+    rw [this]
+    apply upTo_hit
+    · intro x hxm
+      have h1 := showNat_no ',' (by decide) c x hxm
+      have h2 := showNat_no '>' (by decide) c x hxm
+      simp [List.contains, List.elem, h1, h2]
+    · rcases hs with rfl | rfl <;> decide
+  unfold setLoc
+  rw [if_pos hpre, hup, strToInt_showNat c hc]
+
+
+theorem commaCol_eq : commaCol = ',' :: ' ' :: ['c', 'o', 'l', ':'] := by decide
+
+/-- the only candidate position for a pattern is a first character that occurs once -/
+theorem findSub_head_only (h : Char) (pt rest : Str) (hno : ∀ x ∈ rest, (x == h) = false) :
+    findSub (h :: pt) (h :: rest) = if pt.isPrefixOf rest then some 0 else none := by
+  have := findSub_none_of_head h pt rest hno
+  simp only [findSub, List.isPrefixOf, beq_self_eq_true, Bool.true_and, this, Option.map_none]
+
+/-- a source file name as clang prints it: no `:` and no `,` inside, not `col` or `line`, not a single letter
+    (`<a:3:4>` is read as a Windows drive) -/
+def fileNameOK (f : Str) : Bool :=
+  noCh ':' f && noCh ',' f && f != ['c', 'o', 'l'] && f != ['l', 'i', 'n', 'e'] && f.length != 1
+
+theorem colPrefix_file (F post : Str) (h : fileNameOK F = true) : ['c', 'o', 'l', ':'].isPrefixOf (F ++ ':' :: post) = false := by
+  simp only [fileNameOK, Bool.and_eq_true, bne_iff_ne, ne_eq] at h
+  obtain ⟨⟨⟨⟨hc, _⟩, hcol⟩, _⟩, _⟩ := h
+  have hc' := noCh_iff.1 hc
+  match F, hcol, hc' with
+  | [], _, _ => simp [List.isPrefixOf]
+  | [a], _, _ => simp [List.isPrefixOf]
+  | [a, b], _, _ => simp [List.isPrefixOf]
+  | [a, b, c], hcol, _ =>
+    cases hq : ['c', 'o', 'l', ':'].isPrefixOf ([a, b, c] ++ ':' :: post) with
+    | false => rfl
+    | true =>
+      exfalso; simp [List.isPrefixOf] at hq; apply hcol
+      obtain ⟨rfl, rfl, rfl⟩ := hq; rfl
+  | a :: b :: c :: d :: t, _, hc' =>
+    have := hc' d (by simp)
+    cases hq : ['c', 'o', 'l', ':'].isPrefixOf (a :: b :: c :: d :: t ++ ':' :: post) with
+    | false => rfl
+    | true =>
+      exfalso; simp [List.isPrefixOf] at hq
+      obtain ⟨_, _, _, rfl⟩ := hq
+      simp at this
+
+theorem linePrefix_file (F post : Str) (h : fileNameOK F = true) : ['l', 'i', 'n', 'e', ':'].isPrefixOf (F ++ ':' :: post) = false := by
+  simp only [fileNameOK, Bool.and_eq_true, bne_iff_ne, ne_eq] at h
+  obtain ⟨⟨⟨⟨hc, _⟩, _⟩, hline⟩, _⟩ := h
+  have hc' := noCh_iff.1 hc
+  match F, hline, hc' with
+  | [], _, _ => simp [List.isPrefixOf]
+  | [a], _, _ => simp [List.isPrefixOf]
+  | [a, b], _, _ => simp [List.isPrefixOf]
+  | [a, b, c], _, _ => simp [List.isPrefixOf]
+  | [a, b, c, d], hline, _ =>
+    cases hq : ['l', 'i', 'n', 'e', ':'].isPrefixOf ([a, b, c, d] ++ ':' :: post) with
+    | false => rfl
+    | true =>
+      exfalso; simp [List.isPrefixOf] at hq; apply hline
+      obtain ⟨rfl, rfl, rfl, rfl⟩ := hq; rfl
+  | a :: b :: c :: d :: e :: t, _, hc' =>
+    have := hc' e (by simp)
+    cases hq : ['l', 'i', 'n', 'e', ':'].isPrefixOf (a :: b :: c :: d :: e :: t ++ ':' :: post) with
+    | false => rfl
+    | true =>
+      exfalso; simp [List.isPrefixOf] at hq
+      obtain ⟨_, _, _, _, rfl⟩ := hq
+      simp at this
+
+def LForm.ok : LForm → Bool
+  | .col c => c < 2147483648
+  | .line l c => l < 2147483648 && c < 2147483648
+  | .file f l c => fileNameOK f && l < 2147483648 && c < 2147483648
+
+def endOK : Option LForm → Bool
+  | none => true
+  | some e => e.ok
+
+theorem render_no_comma (e : LForm) (h : e.ok = true) : ∀ x ∈ e.render, (x == ',') = false := by
+  intro x hx
+  cases e with
+  | col c =>
+    simp only [LForm.render, List.mem_append] at hx
+    rcases hx with hx | hx
+    · revert x; decide
+    · exact showNat_no ',' (by decide) c x hx
+  | line l c =>
+    simp only [LForm.render, List.mem_append] at hx
+    rcases hx with ((hx | hx) | hx) | hx
+    · revert x; decide
+    · exact showNat_no ',' (by decide) l x hx
+    · revert x; decide
+    · exact showNat_no ',' (by decide) c x hx
+  | file f l c =>
+    simp only [LForm.ok, fileNameOK, Bool.and_eq_true] at h
+    simp only [LForm.render, List.mem_append] at hx
+    rcases hx with (((hx | hx) | hx) | hx) | hx
+    · exact noCh_iff.1 h.1.1.1.1.1.2 x hx
+    · revert x; decide
+    · exact showNat_no ',' (by decide) l x hx
+    · revert x; decide
+    · exact showNat_no ',' (by decide) c x hx
+
+theorem tail_commaCol (e : Option LForm) (he : endOK e = true) :
+    findSub commaCol (tailStr e) = (match e with | some (.col _) => some 0 | _ => none) := by
+  cases e with
+  | none => simp only [tailStr]; decide
+  | some e =>
+    have h2 : tailStr (some e) = ',' :: (' ' :: (e.render ++ ['>'])) := by simp [tailStr]
+    have hno : ∀ x ∈ (' ' :: (e.render ++ ['>'])), (x == ',') = false := by
+      intro x hx
+      simp only [List.mem_cons, List.mem_append, List.not_mem_nil, or_false] at hx
+      rcases hx with rfl | hx | rfl
+      · decide
+      · exact render_no_comma e he x hx
+      · decide
+    rw [h2, commaCol_eq, findSub_head_only ',' _ _ hno]
+    cases e with
+    | col E => simp [LForm.render, List.isPrefixOf]
+    | line L C => simp [LForm.render, List.isPrefixOf]
+    | file F L C =>
+      simp only [endOK, LForm.ok, Bool.and_eq_true] at he
+      have := colPrefix_file F (showNat L ++ [':'] ++ showNat C ++ ['>']) he.1.1
+      have e1 : (LForm.file F L C).render ++ ['>'] = F ++ ':' :: (showNat L ++ [':'] ++ showNat C ++ ['>']) := by simp [LForm.render]
+      simp only [List.isPrefixOf, beq_self_eq_true, Bool.true_and, e1, this]
+      simp
+
+
+theorem showNat_no_stop3 (n : Nat) : ∀ x ∈ showNat n, [':', ',', '>'].contains x = false := by
+  intro x hx
+  have h1 := showNat_no ':' (by decide) n x hx
+  have h2 := showNat_no ',' (by decide) n x hx
+  have h3 := showNat_no '>' (by decide) n x hx
+  simp [List.contains, List.elem, h1, h2, h3]
+
+/-- the column the importer takes for a `<line:…>` range: the END column when the end is printed as `col:`, else the inherited one -/
+def lineFormCol (e : Option LForm) (inh : Pos) : Int :=
+  match e with
+  | some (.col E) => (E : Int)
+  | _ => inh.col
+
+theorem setLoc_line (files : List Str) (l c : Nat) (hl : l < 2147483648) (e : Option LForm) (he : endOK e = true) (inh : Pos) :
+    setLoc files (rangeStr (.line l c) e) inh = .ok (files, { inh with line := (l : Int), col := lineFormCol e inh }) := by
+  have hx : rangeStr (.line l c) e = linePfx ++ showNat l ++ ':' :: (showNat c ++ tailStr e) := by
+    rw [rangeStr_eq]; simp [LForm.render, linePfx]
+  have hnc : colPfx.isPrefixOf (rangeStr (.line l c) e) = false := by
+    rw [hx]; simp [colPfx, linePfx, List.isPrefixOf]
+  have hpre : linePfx.isPrefixOf (rangeStr (.line l c) e) = true := by
+    rw [hx, List.isPrefixOf_iff_prefix]; exact ⟨showNat l ++ ':' :: (showNat c ++ tailStr e), by simp⟩
+  have hup : upTo [':', ',', '>'] (rangeStr (.line l c) e) 6 = showNat l := by
+    rw [hx]
+    have : (6 : Nat) = linePfx.length := by decide
+    rw [this]
+    exact upTo_hit _ _ _ _ _ (showNat_no_stop3 l) (by decide)
+  -- the search for ", col:"
+  let pre : Str := linePfx ++ showNat l ++ ':' :: showNat c
+  have hx2 : rangeStr (.line l c) e = pre ++ tailStr e := by rw [hx]; simp [pre]
+  have hprecomma : ∀ x ∈ pre, (x == ',') = false := by
+    intro x hxm
+    simp only [pre, List.mem_append, List.mem_cons] at hxm
+    rcases hxm with (hxm | hxm) | rfl | hxm
+    · revert x; decide
+    · exact showNat_no ',' (by decide) l x hxm
+    · decide
+    · exact showNat_no ',' (by decide) c x hxm
+  have hfs : findSub commaCol (rangeStr (.line l c) e) = (match e with | some (.col _) => some pre.length | _ => none) := by
+    rw [hx2, commaCol_eq, findSub_skip ',' _ pre _ hprecomma, ← commaCol_eq, tail_commaCol e he]
+    cases e with
+    | none => rfl
+    | some e => cases e <;> simp
+  unfold setLoc
+  rw [if_neg (by rw [hnc]; exact Bool.false_ne_true), if_pos hpre, hup, strToInt_showNat l hl, hfs]
+  cases e with
+  | none => rfl
+  | some e =>
+    cases e with
+    | line L C => rfl
+    | file F L C => rfl
+    | col E =>
+      simp only [endOK, LForm.ok, decide_eq_true_eq] at he
+      have hup2 : upTo [':', ',', '>'] (rangeStr (.line l c) (some (.col E))) (pre.length + 6) = showNat E := by
+        have e3 : rangeStr (.line l c) (some (.col E)) = (pre ++ commaCol) ++ showNat E ++ '>' :: [] := by
+          rw [hx2]; simp [tailStr, LForm.render, commaCol]
+        have e4 : pre.length + 6 = (pre ++ commaCol).length := by simp [commaCol]
+        rw [e3, e4]
+        exact upTo_hit _ _ _ _ _ (showNat_no_stop3 E) (by decide)
+      show (match strToInt (upTo [':', ',', '>'] (rangeStr (.line l c) (some (.col E))) (pre.length + 6)) with
+        | some c => Except.ok (files, { inh with line := (l : Int), col := c })
+        | none => Except.error LocErr.conv) = _
+      rw [hup2, strToInt_showNat E he]
+      rfl
+
+theorem setLoc_file (files : List Str) (f : Str) (l c : Nat) (hf : fileNameOK f = true) (hl : l < 2147483648)
+    (e : Option LForm) (inh : Pos) :
+    setLoc files (rangeStr (.file f l c) e) inh =
+      .ok ((appendFileIfNew files f).1, { inh with file := (appendFileIfNew files f).2, line := (l : Int) }) := by
+  have hx : rangeStr (.file f l c) e = '<' :: (f ++ ':' :: (showNat l ++ ':' :: (showNat c ++ tailStr e))) := by
+    rw [rangeStr_eq]; simp [LForm.render]
+  have hnc : colPfx.isPrefixOf (rangeStr (.file f l c) e) = false := by
+    rw [hx]
+    have := colPrefix_file f (showNat l ++ ':' :: (showNat c ++ tailStr e)) hf
+    simp only [colPfx, List.isPrefixOf, beq_self_eq_true, Bool.true_and]
+    exact this
+  have hnl : linePfx.isPrefixOf (rangeStr (.file f l c) e) = false := by
+    rw [hx]
+    have := linePrefix_file f (showNat l ++ ':' :: (showNat c ++ tailStr e)) hf
+    simp only [linePfx, List.isPrefixOf, beq_self_eq_true, Bool.true_and]
+    exact this
+  have hf' := hf
+  simp only [fileNameOK, Bool.and_eq_true, bne_iff_ne, ne_eq] at hf'
+  obtain ⟨⟨⟨⟨hcol, _⟩, _⟩, _⟩, hlen⟩ := hf'
+  have hcolon : findP (· == ':') (rangeStr (.file f l c) e) = some (f.length + 1) := by
+    rw [hx]
+    have := findP_hit (p := (· == ':')) ('<' :: f) ':' (showNat l ++ ':' :: (showNat c ++ tailStr e))
+      (by intro x hxm; rcases List.mem_cons.1 hxm with rfl | hxm; · decide
+          · exact noCh_iff.1 hcol x hxm) (by decide)
+    simpa using this
+  have hhead : (rangeStr (.file f l c) e).head? = some '<' := by rw [hx]; rfl
+  have hwin : (f.length + 1 == 2 && decide ((rangeStr (.file f l c) e).length > 3)) = false := by
+    have : (f.length + 1 == 2) = false := by
+      cases hq : f.length + 1 == 2 with
+      | false => rfl
+      | true => exfalso; apply hlen; have := beq_iff_eq.1 hq; omega
+    simp [this]
+  have hname : ((rangeStr (.file f l c) e).drop 1).take (f.length + 1 - 1) = f := by
+    rw [hx]; simp
+  have hsep2 : findFrom (· == ':') (rangeStr (.file f l c) e) (f.length + 1 + 1) = some ((showNat l).length + (f.length + 1 + 1)) := by
+    unfold findFrom
+    have hd : (rangeStr (.file f l c) e).drop (f.length + 1 + 1) = showNat l ++ ':' :: (showNat c ++ tailStr e) := by
+      rw [hx]
+      have e5 : '<' :: (f ++ ':' :: (showNat l ++ ':' :: (showNat c ++ tailStr e))) = ('<' :: f ++ [':']) ++ (showNat l ++ ':' :: (showNat c ++ tailStr e)) := by simp
+      have e6 : f.length + 1 + 1 = ('<' :: f ++ [':']).length := by simp
+      rw [e5, e6, drop_len_append]
+    rw [hd, findP_hit (showNat l) ':' _ (showNat_no ':' (by decide) l) (by decide)]
+    rfl
+  have hnum : ((rangeStr (.file f l c) e).drop (f.length + 1 + 1)).take ((showNat l).length + (f.length + 1 + 1) - (f.length + 1) - 1) = showNat l := by
+    have hd : (rangeStr (.file f l c) e).drop (f.length + 1 + 1) = showNat l ++ ':' :: (showNat c ++ tailStr e) := by
+      rw [hx]
+      have e5 : '<' :: (f ++ ':' :: (showNat l ++ ':' :: (showNat c ++ tailStr e))) = ('<' :: f ++ [':']) ++ (showNat l ++ ':' :: (showNat c ++ tailStr e)) := by simp
+      have e6 : f.length + 1 + 1 = ('<' :: f ++ [':']).length := by simp
+      rw [e5, e6, drop_len_append]
+    rw [hd]
+    have : (showNat l).length + (f.length + 1 + 1) - (f.length + 1) - 1 = (showNat l).length := by omega
+    rw [this, take_len_append]
+  unfold setLoc
+  rw [if_neg (by rw [hnc]; exact Bool.false_ne_true), if_neg (by rw [hnl]; exact Bool.false_ne_true), if_pos (by rw [hhead]; rfl), hcolon]
+  simp only [hwin, Bool.false_eq_true, if_false, hname, hsep2, hnum, strToInt_showNat l hl]
+
+
+/-! ### clang's printer and the importer, token by token and along a whole dump -/
+
+/-- a valid presumed location -/
+structure Loc where
+  file : Str
+  line : Nat
+  col : Nat
+deriving Repr, DecidableEq
+
+/-- `LastLocFilename`, `LastLocLine` of TextNodeDumper -/
+structure PState where
+  file : Str
+  line : Nat
+deriving Repr, DecidableEq
+
+/-- `dumpLocation`: which spelling is chosen and how the state changes -/
+def formOf (st : PState) (l : Loc) : LForm × PState :=
+  if l.file ≠ st.file then (.file l.file l.line l.col, ⟨l.file, l.line⟩)
+  else if l.line ≠ st.line then (.line l.line l.col, ⟨st.file, l.line⟩)
+  else (.col l.col, st)
+
+/-- `dumpSourceRange` -/
+def printRange (st : PState) (b e : Loc) : Str × PState :=
+  let fb := formOf st b
+  if b = e then (rangeStr fb.1 none, fb.2)
+  else
+    let fe := formOf fb.2 e
+    (rangeStr fb.1 (some fe.1), fe.2)
+
+def Loc.ok (l : Loc) : Bool := fileNameOK l.file && l.line < 2147483648 && l.col < 2147483648
+
+theorem formOf_ok (st : PState) (l : Loc) (h : l.ok = true) : (formOf st l).1.ok = true := by
+  simp only [Loc.ok, Bool.and_eq_true, decide_eq_true_eq] at h
+  unfold formOf
+  split
+  · simp [LForm.ok, h.1.1, h.1.2, h.2]
+  · split
+    · simp [LForm.ok, h.1.2, h.2]
+    · simp [LForm.ok, h.2]
+
+theorem appendFileIfNew_get (files : List Str) (f : Str) :
+    (appendFileIfNew files f).1[(appendFileIfNew files f).2]? = some f := by
+  unfold appendFileIfNew
+  cases h : files.idxOf? f with
+  | some i =>
+    simp only
+    have := List.idxOf?_eq_some_iff.1 h
+    obtain ⟨hi, hget, _⟩ := this
+    simp [hget, List.getElem?_eq_getElem hi]
+  | none => simp
+
+/-- One node: whatever the last printed location was, the importer reads file and line of the begin location correctly provided
+    the line it inherits is clang's last printed line whenever clang printed only a column; the column is right for the `col:` form. -/
+theorem begin_resolves (files : List Str) (st : PState) (b e : Loc) (hb : b.ok = true) (he : e.ok = true) (inh : Pos)
+    (hfile : b.file = st.file → files[inh.file]? = some st.file) (hline : (formOf st b).1 = .col b.col → inh.line = (st.line : Int)) :
+    ∃ files' p, setLoc files (printRange st b e).1 inh = .ok (files', p) ∧
+      files'[p.file]? = some b.file ∧ p.line = (b.line : Int) ∧ ((formOf st b).1 = .col b.col → p.col = (b.col : Int)) := by
+  have hbo := formOf_ok st b hb
+  have heo : ∀ st', endOK (some (formOf st' e).1) = true := fun st' => formOf_ok st' e he
+  -- the end spelling, whichever it is
+  obtain ⟨eo, heo', hpr⟩ : ∃ eo, endOK eo = true ∧ (printRange st b e).1 = rangeStr (formOf st b).1 eo := by
+    unfold printRange
+    by_cases hbe : b = e
+    · exact ⟨none, rfl, by simp [hbe]⟩
+    · exact ⟨some (formOf (formOf st b).2 e).1, heo _, by simp [hbe]⟩
+  rw [hpr]
+  simp only [Loc.ok, Bool.and_eq_true, decide_eq_true_eq] at hb
+  unfold formOf at hline hbo ⊢
+  by_cases hf : b.file ≠ st.file
+  · simp only [hf, ne_eq, not_false_eq_true, if_true] at hline hbo ⊢
+    refine ⟨_, _, setLoc_file files b.file b.line b.col hb.1.1 hb.1.2 eo inh, appendFileIfNew_get _ _, rfl, ?_⟩
+    intro h; cases h
+  · have hf' : b.file = st.file := by simpa using hf
+    simp only [hf', ne_eq, not_true_eq_false, if_false] at hline hbo ⊢
+    by_cases hl : b.line ≠ st.line
+    · simp only [hl, ne_eq, not_false_eq_true, if_true] at hline hbo ⊢
+      refine ⟨_, _, setLoc_line files b.line b.col hb.1.2 eo heo' inh, ?_, rfl, ?_⟩
+      · simpa [hf'] using hfile hf'
+      · intro h; cases h
+    · have hl' : b.line = st.line := by simpa using hl
+      simp only [hl', ne_eq, not_true_eq_false, if_false] at hline hbo ⊢
+      refine ⟨_, _, setLoc_col files b.col hb.2 eo inh, ?_, ?_, fun _ => rfl⟩
+      · simpa [hf'] using hfile hf'
+      · simpa using hline
+
+
+/-- a node of the dump: its level, its address, the source range clang prints and (for declarations) the name location printed after it -/
+structure SNode where
+  level : Nat
+  addr : Str
+  b : Loc
+  e : Loc
+  name : Option Loc
+deriving Repr
+
+def SNode.ok (n : SNode) : Bool := n.b.ok && n.e.ok
+
+/-- the printer state after the node's header line -/
+def SNode.after (st : PState) (n : SNode) : PState :=
+  match n.name with
+  | none => (printRange st n.b n.e).2
+  | some l => (formOf (printRange st n.b n.e).2 l).2
+
+/-- `mExtTokens` of the node as far as `setLocations` reads them -/
+def SNode.toks (st : PState) (n : SNode) : List Str :=
+  [n.addr, (printRange st n.b n.e).1] ++
+    (match n.name with
+     | none => []
+     | some l => [(formOf (printRange st n.b n.e).2 l).1.render])
+
+/-- the dump of a whole tree in preorder, clang's state threaded through every printed location -/
+def printSeq (st : PState) : List SNode → List (Nat × List Str)
+  | [] => []
+  | n :: r => (n.level, n.toks st) :: printSeq (n.after st) r
+
+/-- at every node: unless clang prints the file name, the file the importer inherits is clang's current file, and when clang prints only
+    a column the inherited line is clang's current line -/
+def lineThreadOK (files : List Str) (stack : List Pos) (init : Pos) (st : PState) : List SNode → Bool
+  | [] => true
+  | n :: r =>
+    let inh := if n.level = 0 then init else (stack[n.level - 1]?).getD init
+    (decide (n.b.file = st.file → files[inh.file]? = some st.file)) &&
+    (decide ((formOf st n.b).1 = .col n.b.col → inh.line = (st.line : Int))) &&
+    match setLocNode files (n.toks st) inh with
+    | .ok (files', p) => lineThreadOK files' (stack.take n.level ++ [p]) init (n.after st) r
+    | .error _ => false
+
+/-- Along a whole dump: if the inheritance condition holds at every node, every node gets the line clang means. -/
+theorem seq_lines_resolve : ∀ (nodes : List SNode) (files : List Str) (stack : List Pos) (init : Pos) (st : PState),
+    nodes.all SNode.ok = true → lineThreadOK files stack init st nodes = true →
+    ∃ ps, setLocSeq files stack init (printSeq st nodes) = .ok ps ∧ ps.map (·.line) = nodes.map (fun n => (n.b.line : Int))
+  | [], _, _, _, _, _, _ => ⟨[], rfl, rfl⟩
+  | n :: r, files, stack, init, st, hok, hth => by
+    simp only [List.all_cons, Bool.and_eq_true, SNode.ok] at hok
+    simp only [lineThreadOK, Bool.and_eq_true, decide_eq_true_eq] at hth
+    obtain ⟨⟨hfile, hline⟩, hrest⟩ := hth
+    obtain ⟨files', p, hset, _, hpl, _⟩ := begin_resolves files st n.b n.e hok.1.1 hok.1.2 _ hfile hline
+    have hnode : setLocNode files (n.toks st) (if n.level = 0 then init else (stack[n.level - 1]?).getD init) = .ok (files', p) := by
+      simp only [SNode.toks, setLocNode, List.cons_append, List.nil_append]
+      exact hset
+    rw [hnode] at hrest
+    obtain ⟨ps, hps, hmap⟩ := seq_lines_resolve r files' _ init _ hok.2 hrest
+    refine ⟨p :: ps, ?_, ?_⟩
+    · simp only [printSeq, setLocSeq, hnode, hps]
+    · simp [hpl, hmap]
+
+end
+
+
+/-! ### the importer does not satisfy the condition: children inherit from their PARENT, clang continues from the LAST PRINTED location -/
+
+def fileA : Str := ['a', '.', 'c']
+
+/-- `int f(int a,⏎      int b) { return a; }`: the function, its two parameters, its body -/
+def twoLineFunction : List SNode :=
+  [⟨0, ['0', 'x', '1'], ⟨fileA, 1, 1⟩, ⟨fileA, 2, 26⟩, some ⟨fileA, 1, 5⟩⟩,
+   ⟨1, ['0', 'x', '2'], ⟨fileA, 1, 7⟩, ⟨fileA, 1, 11⟩, some ⟨fileA, 1, 11⟩⟩,
+   ⟨1, ['0', 'x', '3'], ⟨fileA, 2, 7⟩, ⟨fileA, 2, 11⟩, some ⟨fileA, 2, 11⟩⟩,
+   ⟨1, ['0', 'x', '4'], ⟨fileA, 2, 14⟩, ⟨fileA, 2, 26⟩, none⟩]
+
+/-- the same function on one line -/
+def oneLineFunction : List SNode :=
+  [⟨0, ['0', 'x', '1'], ⟨fileA, 1, 1⟩, ⟨fileA, 1, 40⟩, some ⟨fileA, 1, 5⟩⟩,
+   ⟨1, ['0', 'x', '2'], ⟨fileA, 1, 7⟩, ⟨fileA, 1, 11⟩, some ⟨fileA, 1, 11⟩⟩,
+   ⟨1, ['0', 'x', '3'], ⟨fileA, 1, 14⟩, ⟨fileA, 1, 18⟩, some ⟨fileA, 1, 18⟩⟩,
+   ⟨1, ['0', 'x', '4'], ⟨fileA, 1, 21⟩, ⟨fileA, 1, 40⟩, none⟩]
+
 
 end Cppcheck.ClangLine
